@@ -1101,3 +1101,123 @@ def ord8b_span_not_narrowed(P, R, L, rule="ORD-8b"):
     R.check(rule, K.APPLY + "|sequence-span-at-full-width", bool(pubs) and not bad, where(b),
             "the values handed to set_prev_sequence_number / set_starting_seq_number are computed without a cast to fewer than 64 bits",
             "ok" if pubs and not bad else "narrowed: %s" % bad[:3])
+
+
+# ------------------------------------------------------------------------------------------- ORD-9b the writer looks up the memtable after it made room
+def ord9b_memtable_loaded_after_make_room(P, R, L, rule="ORD-9b"):
+    """DB::apply_changes: `make_room_for_write` may rotate the memtable (the old one becomes immutable and is flushed by the
+    compaction thread).  The memtable the group's batch is inserted into is therefore loaded (`DB::memtable()` = the ArcSwap load)
+    AFTER make_room_for_write returned - in the body behind that call, or inside the unlocked section, which itself lies behind
+    it.  A pointer captured before the rotation inserts the batch into the memtable that is being flushed: the flush has already
+    walked past some of its keys, and readers see part of the batch (or lose it with the WAL of that memtable)."""
+    from . import common as K
+    b = P.body(K.APPLY)
+    if b is None:
+        return R.missing_anchor(rule, K.APPLY)
+    R.analysed(b)
+    rooms = [c for c in b.calls() if not b.is_cleanup(c.bb) and (c.name or "").endswith("DB::make_room_for_write")]
+    if not rooms:
+        return R.check(rule, K.APPLY + "|memtable-loaded-after-make-room", False, where(b), "a make_room_for_write call", "none")
+    bad, n = [], 0
+    for x in [b] + _all_closures(b):
+        for c in x.calls():
+            if x.is_cleanup(c.bb) or not (c.name or "").endswith("DB::memtable"):
+                continue
+            n += 1
+            if x is b:
+                if not b.must_pass(c.bb, through_nodes=[r.bb for r in rooms]):
+                    bad.append("DB::memtable() at line %s can run before make_room_for_write" % c.t.get("line"))
+            else:
+                # inside a closure: the site that receives the closure lies behind make_room_for_write
+                sites = [s for s in b.calls() if not b.is_cleanup(s.bb) and x.path in s.closure_args()]
+                top = x
+                while not sites and top.parent and top.parent != b.path and P.bodies.get(top.parent) is not None:
+                    top = P.bodies[top.parent]
+                    sites = [s for s in b.calls() if not b.is_cleanup(s.bb) and top.path in s.closure_args()]
+                if not sites or not all(b.must_pass(s.bb, through_nodes=[r.bb for r in rooms]) for s in sites):
+                    bad.append("the closure %s that loads the memtable can run before make_room_for_write" % x.path.rsplit("::", 1)[-1])
+    R.check(rule, K.APPLY + "|memtable-loaded-after-make-room", n > 0 and not bad, where(b),
+            "every DB::memtable() load of the write path lies behind make_room_for_write", "ok (%d loads)" % n if n and not bad else "; ".join(bad) or "no load found")
+
+
+# ------------------------------------------------------------------------------------------- GRD-15 (name) the filter block is filed under the policy's name
+def grd15b_filter_block_name_carries_the_policy(P, R, L, rule="GRD-15"):
+    """The filter block of a table is filed in the metaindex under `filter.<policy name>`, and the reader only uses a block whose
+    key equals the name of the CONFIGURED policy (GRD-15).  That guard is only as good as the name: get_filter_block_name's result
+    derives from FilterPolicy::get_name of its argument.  With a constant name a table written under one policy is probed with the
+    bits of another after a reopen with changed options - every key of the old tables is `not in this file`."""
+    fn = "filter_policy::get_filter_block_name"
+    b = P.body(fn)
+    if b is None:
+        return R.missing_anchor(rule, fn)
+    R.analysed(b)
+    names = [c for c in b.calls() if not b.is_cleanup(c.bb) and (c.declared_name or c.name or "").endswith("FilterPolicy::get_name")]
+    on_param = [c for c in names if c.args and any(o.kind == "param" and o.name == 1 for o in follow(b, c.args[0], through=ADAPTERS + ("as_ref", "deref")))]
+    # the name reaches the returned string: some call that produced _0 (or fed it) takes the name as an operand
+    flows = False
+    if on_param:
+        name_locals = set()
+        for c in on_param:
+            if not c.dest["p"]:
+                name_locals.add(c.dest["l"])
+        seen, todo = set(), [{"l": 0, "p": []}]
+        for _ in range(12):
+            nxt = []
+            for x in todo:
+                for o in origins(b, x):
+                    if o.kind == "call" and o.site is not None and o.site.bb not in seen:
+                        seen.add(o.site.bb)
+                        if any(o.site.bb == c.bb for c in on_param):
+                            flows = True
+                        nxt += list(o.site.args)
+                    elif o.kind == "agg" and o.extra is not None:
+                        nxt += list(o.extra[1]["rv"].get("ops", []))
+            todo = nxt
+    R.check(rule, fn + "|name-carries-the-policy", bool(on_param) and flows, where(b),
+            "the returned name derives from FilterPolicy::get_name() of the policy argument", "ok" if on_param and flows else
+            "get_name calls on the argument: %d, flows into the result: %s" % (len(on_param), flows))
+
+
+# ------------------------------------------------------------------------------------------- ORD-10b the compaction thread ends only on Terminate
+WORKER_LOOP = "compaction::worker::CompactionWorker::new::{closure#0}"
+
+
+def ord10b_worker_leaves_only_on_terminate(P, R, L, rule="ORD-10b"):
+    """The compaction thread leaves its task loop only because it RECEIVED the Terminate command.  `Drop for DB` sets
+    `is_shutting_down`, then waits until `background_compaction_scheduled` is false, and only then sends Terminate: a thread that
+    also leaves as soon as it sees `is_shutting_down` can exit with a Compaction task still in the channel (scheduled between its
+    last drain of the channel and its look at the flag) - nobody clears the scheduled flag and closing the database never
+    returns.  Decided flag-sensitively from the entry of the thread body: every return passes the Terminate edge of the match on
+    the task kind."""
+    b = P.body(WORKER_LOOP)
+    if b is None:
+        return R.missing_anchor(rule, WORKER_LOOP)
+    R.analysed(b)
+    enum = {n: int(v) for n, v in P.facts.get("enums", {}).get("compaction::worker::TaskKind", [])}
+    term = enum.get("Terminate")
+    term_edges = []
+    for bb in range(b.n):
+        for st in b.blocks[bb]["stmts"]:
+            if st["k"] == "assign" and st["rv"]["k"] == "discr" and not st["pl"]["p"] and "TaskKind" in (b.local_ty(st["rv"]["pl"]["l"]) or ""):
+                for sb in range(b.n):
+                    t = b.term(sb)
+                    if t["k"] == "switch" and t["discr"]["k"] in ("copy", "move") and t["discr"]["pl"]["l"] == st["pl"]["l"]:
+                        listed = {int(v) for v, _ in t["targets"]}
+                        for v, tg in t["targets"]:
+                            if int(v) == term:
+                                term_edges.append((sb, tg))
+                        if term is not None and term not in listed and t.get("otherwise") is not None and len(enum) - len(listed) == 1:
+                            term_edges.append((sb, t["otherwise"]))
+    recvs = [c for c in b.calls() if not b.is_cleanup(c.bb) and (c.name or "").endswith("Receiver::recv")]
+    rets = b.return_blocks()
+    bad = []
+    for c in recvs:
+        if c.target is None:
+            continue
+        for r in rets:
+            if not b.must_pass_fs(r, through_edges=term_edges):
+                bad.append(r)
+    ok = bool(recvs) and bool(term_edges) and not bad
+    R.check(rule, WORKER_LOOP + "|thread-ends-only-on-terminate", ok, "src/compaction/worker.rs",
+            "from a received task the thread's return is reached only over the Terminate arm of the match on the task kind",
+            "ok" if ok else "recv sites %d, Terminate edges %d, returns reachable without Terminate: %s" % (len(recvs), len(term_edges), bad[:2]))
